@@ -48,6 +48,16 @@ CLAIMED = {
         note=TB + "Modelled: to_operational/get_state (Ecat/StateMachine.v); ec.roundtrip replaced by a scripted terminal.",
         technique="Coq proof by induction over reply streams + differential correspondence",
         ref="7/C14"),
+    "C18": dict(
+        text="Theorem C18_regions (induction over ANY terminal list; FMMU, direct and Aerotech-style allocators; all sizes/flags): accepted allocations give "
+             "pairwise disjoint regions of the declared sizes, direct regions inside their own datagram, FMMU regions inside the LRD/LWR data, logical address "
+             "= window base + same offset, frame <= MAXSIZE, windows shorter than their spacing; C18_windows_disjoint: windows of different sync groups of one "
+             "master never overlap (stride and window increment regenerated from source); rejection characterised by C18_too_large_rejected. Tied to "
+             "SyncGroup.allocate by differential runs incl. sets steered onto the 1500-byte boundary; an independent frame parser checks every region.",
+        note=TB + "Modelled: EBPFTerminal.allocate, AerotechBase.allocate, SterilePacket.append_fmmu, SyncGroupBase.allocate (Ecat/Alloc.v). Assumes "
+             "non-negative sizes and positive Aerotech packet sizes; for ParallelEtherCat the window base comes from FMMULock (C23).",
+        technique="Coq invariant proof over the allocation fold + differential correspondence",
+        ref="7/C18"),
 }
 
 REASONS_NOT_YET = "no check built yet in this round (planned, see DESIGN.md section 7); nothing is claimed for it"
